@@ -538,6 +538,10 @@ func (x *Exec) loop(s ast.Stmt, st *State, cx *Ctx, k func(*State)) {
 				}
 			}
 		}
+		if es, _ := x.elemSort(rangeVal); kind == "slice" && es == "Int" {
+			a := x.arrComp(st, "Int")
+			st.assume(app("=", app("lsum", app("sl_off", rangeVal.T), "0", app("select", a.T, app("sl_arr", rangeVal.T))), "0"))
+		}
 		checkInvs(st, hidden, "inv-entry")
 		// havoc
 		ms := x.modAnalysis(s, st)
@@ -616,6 +620,15 @@ func (x *Exec) loop(s ast.Stmt, st *State, cx *Ctx, k func(*State)) {
 				kt := x.info().TypeOf(rng.Key)
 				x.assignTo(iter, rng.Key, Val{T: hid["$i"].T, S: "Int", G: kt})
 			}
+			if es, _ := x.elemSort(rangeVal); kind == "slice" && es == "Int" {
+				a := x.arrComp(iter, "Int")
+				inner := app("select", a.T, app("sl_arr", rangeVal.T))
+				off := app("sl_off", rangeVal.T)
+				i := hid["$i"].T
+				iter.assume(app("=", app("lsum", off, "0", inner), "0"))
+				iter.assume(app("=", app("lsum", off, app("+", i, "1"), inner), app("+", app("lsum", off, i, inner), app("select", inner, app("at", off, i)))))
+				exit.assume(app("=", app("lsum", off, "0", inner), "0"))
+			}
 			if rng.Value != nil && kind == "slice" {
 				v := x.sliceAt(iter, rangeVal, hid["$i"].T)
 				x.assumeWellTyped(iter, v)
@@ -625,6 +638,13 @@ func (x *Exec) loop(s ast.Stmt, st *State, cx *Ctx, k func(*State)) {
 			d, v, vs, vt := x.mapParts(iter, rangeVal)
 			S := hid["$visited"].T
 			key := x.freshConst("rk", "Int")
+			if !x.insertsIntoRanged(rng) {
+				// keys already produced were present when the loop started
+				dp, _, _, _ := x.mapParts(pre, rangeVal)
+				fact := fmt.Sprintf("(forall ((k Int)) (! (=> (select %s k) (select %s k)) :pattern ((select %s k))))", S, dp, S)
+				iter.assume(fact)
+				exit.assume(fact)
+			}
 			x.nilMapFacts(iter, rangeVal, d, v, vs, key)
 			x.nilMapFacts(exit, rangeVal, d, v, vs, "")
 			kt := types.Unalias(x.info().TypeOf(rng.X)).Underlying().(*types.Map).Key()
@@ -917,6 +937,44 @@ func (x *Exec) modAnalysis(loop ast.Stmt, st *State) *modSet {
 		return true
 	})
 	return ms
+}
+
+// insertsIntoRanged: the loop body may add keys to the map it ranges over (any write to the
+// ranged map other than to the current key).
+func (x *Exec) insertsIntoRanged(rng *ast.RangeStmt) bool {
+	m := types.ExprString(rng.X)
+	key := ""
+	if id, ok := rng.Key.(*ast.Ident); ok {
+		key = id.Name
+	}
+	found := false
+	ast.Inspect(rng.Body, func(n ast.Node) bool {
+		var lhs []ast.Expr
+		switch s := n.(type) {
+		case *ast.AssignStmt:
+			lhs = s.Lhs
+		case *ast.IncDecStmt:
+			lhs = []ast.Expr{s.X}
+		case *ast.CallExpr:
+			// a callee might write the map: be conservative unless the map is a local
+			if _, isLocal := rng.X.(*ast.Ident); !isLocal {
+				if id, ok := s.Fun.(*ast.Ident); !ok || (id.Name != "delete" && id.Name != "append" && id.Name != "len") {
+					if _, isSel := s.Fun.(*ast.SelectorExpr); isSel {
+						found = true
+					}
+				}
+			}
+		}
+		for _, l := range lhs {
+			if ix, ok := ast.Unparen(l).(*ast.IndexExpr); ok && types.ExprString(ix.X) == m {
+				if id, ok := ix.Index.(*ast.Ident); !ok || id.Name != key || key == "" {
+					found = true
+				}
+			}
+		}
+		return true
+	})
+	return found
 }
 
 func rootIdent(e ast.Expr) *ast.Ident {
@@ -1252,8 +1310,11 @@ func (x *Exec) checkFrame(st *State) {
 				es, _ := x.elemSort(s)
 				targets["arr_"+sortTag(es)] = append(targets["arr_"+sortTag(es)], app("sl_arr", s.T))
 			case t.Op == "call" && t.Name == "anyelems":
-				s := envp.eval(t.Args[0])
-				es, _ := x.elemSort(s)
+				es := sortOfName(t.Args[0])
+				if es == "" {
+					s := envp.eval(t.Args[0])
+					es, _ = x.elemSort(s)
+				}
 				targets["arr_"+sortTag(es)] = append(targets["arr_"+sortTag(es)], "*")
 			}
 		}
@@ -1296,7 +1357,7 @@ func (x *Exec) checkFrame(st *State) {
 				goals = append(goals, not(w.guard))
 				continue
 			}
-			alts := []string{app(">=", w.ref, x.entry.nextref)}
+			alts := []string{app(">=", w.ref, x.entry.nextref), app("<=", w.ref, "0")}
 			for _, r := range targets[name] {
 				alts = append(alts, app("=", w.ref, r))
 			}
